@@ -113,7 +113,7 @@ func evalCells(m *matrix, fns []*ssa.Function, lang, dir string) []cellResult {
 			if res.ok && cl.need&sLE != 0 && cl.need != sLE {
 				for _, g := range groups {
 					rest := cl.need &^ sLE
-					if g.deps&rest == rest && g.deps&sLE == 0 {
+					if g.root && g.data&rest == rest && g.deps&sLE == 0 {
 						res.ok = false
 						res.have = g.deps
 						res.where = fnKey(g.fn)
@@ -449,7 +449,7 @@ func wireArms(wc *wireCtx, r *Report, prop, dir string) {
 						if d.Branch != b {
 							continue
 						}
-						data, _ := wc.m.siteDeps(s, nil)
+						data := wc.m.siteDataFull(s, nil)
 						// only sites that carry wire-relevant operands matter
 						if data&(wireSrc|sLE|sTBL) == 0 {
 							continue
@@ -502,12 +502,12 @@ func wireArms(wc *wireCtx, r *Report, prop, dir string) {
 									continue
 								}
 								if d.Succ == lsucc && stt.admits(ul) {
-									x, _ := wc.m.siteDeps(s, &ul)
+									x := wc.m.siteDataFull(s, &ul)
 									dl |= x & wireSrc
 									nl++
 								}
 								if d.Succ == ssucc && stt.admits(us) {
-									x, _ := wc.m.siteDeps(s, &us)
+									x := wc.m.siteDataFull(s, &us)
 									ds |= x & wireSrc
 									ns++
 								}
@@ -1126,7 +1126,7 @@ func wirePaddingSiblings(wc *wireCtx, r *Report, prop string) {
 			r.fail(rule, l+": GetPadding resolved", "", "padding helper not found")
 			continue
 		}
-		sigs[l] = decisionSignature(fns[0])
+		sigs[l] = decisionSignature(wc.m.w, fns[0])
 		langs = append(langs, l)
 	}
 	// majority signature
@@ -1150,70 +1150,91 @@ func wirePaddingSiblings(wc *wireCtx, r *Report, prop string) {
 	}
 }
 
-// decisionSignature: the set of facts a function branches on, described without constants.
-func decisionSignature(fn *ssa.Function) string {
+// decisionSignature: the set of facts a function (and the repo helpers it calls) branches on, described coarsely and without constants.
+func decisionSignature(w *World, fn *ssa.Function) string {
 	set := map[string]bool{}
-	for _, b := range fn.Blocks {
-		cond := branchCond(b)
-		if cond == nil {
-			continue
+	seen := map[*ssa.Function]bool{}
+	var visit func(f *ssa.Function, depth int)
+	visit = func(f *ssa.Function, depth int) {
+		if f == nil || seen[f] || depth > 4 || f.Blocks == nil {
+			return
 		}
-		set[describeCond(cond, 0)] = true
+		seen[f] = true
+		for _, b := range f.Blocks {
+			if cond := branchCond(b); cond != nil {
+				for _, d := range describeCond(w, cond, 0, func(g *ssa.Function) { visit(g, depth+1) }) {
+					set[d] = true
+				}
+			}
+			for _, ins := range b.Instrs {
+				if c, ok := ins.(ssa.CallInstruction); ok {
+					if g := c.Common().StaticCallee(); g != nil && w.isSubjectFunc(g) && g.Pkg == w.Parser {
+						visit(g, depth+1)
+					}
+				}
+			}
+		}
 	}
+	visit(fn, 0)
 	return strings.Join(sortedBoolKeys(set), "; ")
 }
 
-func describeCond(v ssa.Value, depth int) string {
+// describeCond: coarse descriptors of a condition: is(<AttrType>), nil(<type>), cmp-const-string, IsDefault(), bool field reads.
+func describeCond(w *World, v ssa.Value, depth int, inline func(*ssa.Function)) []string {
 	if depth > 6 {
-		return "?"
+		return nil
 	}
 	switch x := v.(type) {
 	case *ssa.UnOp:
 		if x.Op == token.NOT {
-			return describeCond(x.X, depth+1) // polarity is not part of the signature
+			return describeCond(w, x.X, depth+1, inline)
 		}
 		if x.Op == token.MUL {
 			if fa, ok := x.X.(*ssa.FieldAddr); ok {
 				tn, f, _, _ := fieldOf(fa)
-				return tn + "." + f
+				return []string{tn + "." + f}
 			}
-			return "*" + describeCond(x.X, depth+1)
 		}
 	case *ssa.BinOp:
-		a, b := describeCond(x.X, depth+1), describeCond(x.Y, depth+1)
-		if a > b {
-			a, b = b, a
+		if x.Op == token.EQL || x.Op == token.NEQ {
+			if isNilConst(x.X) || isNilConst(x.Y) {
+				o := x.X
+				if isNilConst(o) {
+					o = x.Y
+				}
+				return []string{"nil(" + types.TypeString(o.Type(), shortQual) + ")"}
+			}
+			_, c1 := constString(x.X)
+			_, c2 := constString(x.Y)
+			if c1 || c2 {
+				return []string{"cmp-const-string"}
+			}
 		}
-		op := x.Op.String()
-		if x.Op == token.NEQ {
-			op = "=="
-		}
-		return a + " " + op + " " + b
-	case *ssa.Const:
-		if x.Value == nil {
-			return "nil"
-		}
-		return "<const>"
+		return append(describeCond(w, x.X, depth+1, inline), describeCond(w, x.Y, depth+1, inline)...)
 	case *ssa.Extract:
 		if ta, ok := x.Tuple.(*ssa.TypeAssert); ok {
-			return describeCond(ta.X, depth+1) + ".(" + modelTypeName(ta.AssertedType) + ")"
+			return []string{"is(" + modelTypeName(ta.AssertedType) + ")"}
 		}
-		return describeCond(x.Tuple, depth+1)
+		return describeCond(w, x.Tuple, depth+1, inline)
 	case *ssa.Call:
 		if f := x.Call.StaticCallee(); f != nil {
-			return f.Name() + "()"
-		}
-		if x.Call.IsInvoke() {
-			return x.Call.Method.Name() + "()"
+			if f.Pkg == w.Model {
+				return []string{f.Name() + "()"}
+			}
+			if w.isSubjectFunc(f) {
+				inline(f) // a predicate helper: its own conditions are part of the signature
+				return nil
+			}
+			return []string{f.Name() + "()"}
 		}
 	case *ssa.Phi:
-		return "var:" + types.TypeString(x.Type(), shortQual)
-	case *ssa.Parameter:
-		return "param"
-	case *ssa.Lookup:
-		return "lookup"
+		var out []string
+		for _, e := range x.Edges {
+			out = append(out, describeCond(w, e, depth+1, inline)...)
+		}
+		return out
 	}
-	return strings.TrimPrefix(fmt.Sprintf("%T", v), "*ssa.")
+	return nil
 }
 
 // ---------- pad-character spellings (C03) ----------
@@ -1273,17 +1294,34 @@ func wirePadSpellings(w *World, wc *wireCtx, r *Report) {
 			continue
 		}
 		recognised := map[string]bool{}
-		forEachInstr(fns[0], func(b *ssa.BasicBlock, ins ssa.Instruction) {
-			bo, ok := ins.(*ssa.BinOp)
-			if !ok || (bo.Op != token.EQL && bo.Op != token.NEQ) {
+		seenF := map[*ssa.Function]bool{}
+		var scan func(f *ssa.Function, depth int)
+		scan = func(f *ssa.Function, depth int) {
+			if f == nil || seenF[f] || depth > 4 || f.Blocks == nil {
 				return
 			}
-			for _, side := range []ssa.Value{bo.X, bo.Y} {
-				if s, ok := constString(side); ok {
-					recognised[s] = true
+			seenF[f] = true
+			forEachInstr(f, func(b *ssa.BasicBlock, ins ssa.Instruction) {
+				switch x := ins.(type) {
+				case *ssa.BinOp:
+					if x.Op != token.EQL && x.Op != token.NEQ {
+						return
+					}
+					for _, side := range []ssa.Value{x.X, x.Y} {
+						if s, ok := constString(side); ok {
+							recognised[s] = true
+						}
+					}
+				case ssa.CallInstruction:
+					if g := x.Common().StaticCallee(); g != nil && w.isSubjectFunc(g) && g.Pkg == w.Parser {
+						scan(g, depth+1)
+					}
+				case *ssa.Lookup:
+					// a set literal of spellings: map[string]bool{...}[s]
 				}
-			}
-		})
+			})
+		}
+		scan(fns[0], 0)
 		for _, s := range nul {
 			key := fmt.Sprintf("%s: GetPadding normalises the NUL spelling %q", l, s)
 			if recognised[s] {
